@@ -11,6 +11,7 @@ RULE = ("each case runs a structure (repository proteins, cut-outs centred on a 
         "star <=> partner are read from the live groups of every conformation. Non-trivial: >= 1 "
         "swap executed in the case; distinct = distinct structure digests.")
 RULE = RULE + ' Round 8: in 40 % of the cases an observer renders every determinant row of a conformation right before its search starts.'
+RULE = RULE + ' Rounds 9-12: two copies of one ligand at one group; the star clause on the written file; clusters in several models with mutants.'
 ASSUMPTIONS = ["-d (display of alternative states) is excluded from the on/off comparison, as the statement says; "
                "the restore contract still applies to the probability function it calls"]
 TIMEOUT = {"quick": 1800, "thorough": 10800}
